@@ -1,5 +1,6 @@
 import RosuModel.Model.GradualWire
 import RosuModel.Model.BuilderWire
+import RosuModel.Model.Convert
 
 open Rosu
 
@@ -8,6 +9,7 @@ def handle (line : String) : String :=
   | ["GRAD", mode, objs, sig, ops] => Gradual.handleGrad mode objs sig ops
   | ["ONE", mode, objs, take] => Gradual.handleOne mode objs take
   | ["BLD", kind, mode, calls] => Builder.handleBld kind mode calls
+  | ["CONV", mode, isConv, target] => Convert.handleConv mode isConv target
   | _ => "bad-op"
 
 partial def loop (h : IO.FS.Stream) (out : IO.FS.Stream) : IO Unit := do
